@@ -13,32 +13,45 @@ from typing import Any
 from harness.common import Ck, REPO, coq_list, coq_str, parse_coq_N_list, parse_coq_nested
 from harness import c06_util as U
 from translate import c06_vmf as T
+from translate import c06_prog as P
 
 MANIFEST = dict(
-    technique='Rocq proof of five obligation families over objects generated from vmf.py by a fail-closed ast translator '
-              '(write templates, key tables, displacement array shapes, entity-loop shape) + vm_compute correspondence of '
-              'the escape/scanner/rounding models + round-trip search on real VMF objects',
-    text='Theorems in Props/C06.v: the tokenizer\'s quoted-string scanner inverts escape_text for every string in both modes; '
-         'every keyvalue line whose interpolations are all escaped strings, numbers or plain literals re-reads as its field '
-         'values (and a raw string field does not); every written key/block name is looked up by a reader in the same block; '
-         'displacement array rows have exactly the length the reader demands for power 1..4; correctly rounded %.6f / %g '
-         'output is within 5e-7 / six significant digits; reading entity and hidden blocks in file order preserves entity '
-         'order; replaceNN indexes 1..99 round-trip. The instance obligations (one per writer method, per array, per loop '
-         'shape) are regenerated from vmf.py on every run and kernel-checked. The search builds maps through the public API '
-         '(all object kinds, options minimal/disp_multiblend/preserve_ids, every tests/*.vmf) and checks text fixed point '
-         'and field-by-field equality with the stated tolerances.',
-    note='Partial with respect to the whole-map statement: the composition of the five families into "the whole map survives" '
-         'is an informal argument plus the search; there is no Gallina model of the VMF object graph. Trusted: Coq kernel + '
-         'vm_compute, translate/c06_vmf.py (its key table is cross-checked against really exported text on every run), the '
-         'hand field-type table (validated on real objects), CPython number formatting being correctly rounded and producing '
-         'no quote/backslash/newline. Format limits excluded from the generator (documented in docs/C06.md): keys that look '
-         'like replaceNN / id, LF/CR in key names, the separator character inside output fields, fixup names with a space, '
-         '>99 fixups, group/visgroup membership of brush-entity solids, 2D viewport coordinates of exactly +-65536. '
-         'Known findings: "-0" text (math.format_float, C05) and cordon_enabled without cordons.',
+    technique='Rocq proof over objects generated from vmf.py by fail-closed ast translators: write templates, key tables, '
+              'displacement array shapes, entity-loop shape (round 1) and, since round 2, every export method as a structured '
+              'write program (lines, blocks, optional wrappers, conditionals, loops, calls) plus the reader configuration of row '
+              'keys and the separators/field order of outputs; the block theorem composes the string-level theorems with the C01 '
+              'KeyValues1 tokenizer/parser model; vm_compute correspondence of the escape/scanner/rounding/output/fixup models; '
+              'round-trip search on real VMF objects',
+    text='Theorems in Props/C06.v (29): the tokenizer\'s quoted-string scanner inverts escape_text for every string in both modes; '
+         'every keyvalue line whose interpolations are escaped strings, numbers or plain literals re-reads as its field values (a raw '
+         'string field does not); for every generated export program that passes prog_ok, every environment (any field contents, '
+         'any outcome of conditions, any number of loop iterations and callees) and call depth, the text written parses -- C01 '
+         'tokenizer and Keyvalues.parse model -- to exactly the tree of keys, values and child blocks the writer was given; every '
+         'written key/block name is looked up by a reader in the same block; displacement rows have exactly the length the reader '
+         'demands for power 1..4 and the reader recognises every row key written (row0..row16); output values survive as_keyvalue/'
+         'parse for fields free of the separator (both forms, extra commas in the parameter), instance:name;command names survive; '
+         'replaceNN lines and EntityFixup index bookkeeping keep up to 99 distinctly named fixups with their indexes; correctly '
+         'rounded %.6f / %g output is within 5e-7 / six significant digits; reading entity and hidden blocks in file order preserves '
+         'entity order. 83 instance obligations (per writer method, per program, per array, per power, loop shape, separators) are '
+         'regenerated from vmf.py and kernel-checked on every run. The search builds maps through the public API (all object kinds, '
+         'options minimal/disp_multiblend/preserve_ids, every tests/*.vmf) and checks text fixed point and field-by-field equality '
+         'with the stated tolerances.',
+    note='Partial with respect to the whole-map statement: text -> KeyValues tree is proved for all export methods; tree -> object is '
+         'proved per block (keys read), per array, per output value, per fixup line, not for whole objects (no Gallina model of the '
+         'VMF object graph; Vec.from_str, UVAxis.parse, allowed_verts, flags tables, ID managers are search-only), and the number '
+         'format used by each field is not tied to the rounding theorems per field. Trusted: Coq kernel + vm_compute, '
+         'translate/c06_vmf.py and translate/c06_prog.py (key table cross-checked against really exported text on every run), the '
+         'hand field-type table (validated on real objects), the C01 KeyValues1 model (tied by C01\'s own check), CPython number '
+         'formatting being correctly rounded and producing no quote/backslash/newline, str.split/join/int/casefold as modelled. '
+         'Format limits excluded from the generator (docs/C06.md): keys that look like replaceNN / id, LF/CR in key names, the '
+         'separator character inside output fields, fixup names with a space, >99 fixups, group/visgroup membership of brush-entity '
+         'solids, 2D viewport coordinates of exactly +-65536. Known findings: "-0" text (math.format_float, C05) and cordon_enabled '
+         'without cordons.',
 )
 
-IMPORTS = ['Coq.NArith.NArith', 'Coq.ZArith.ZArith', 'Coq.Lists.List', 'Coq.Strings.String', 'SV.Fmt.VmfText',
-           'SV.Gen.VmfTemplates_gen', 'SV.Gen.VmfKeys_gen', 'SV.Gen.VmfDispSizes_gen', 'SV.Gen.VmfOrder_gen', 'SV.Props.C06']
+IMPORTS = ['Coq.NArith.NArith', 'Coq.ZArith.ZArith', 'Coq.Lists.List', 'Coq.Strings.String', 'SV.KV.KvBase', 'SV.Fmt.VmfText',
+           'SV.Fmt.VmfBlocks', 'SV.Gen.VmfTemplates_gen', 'SV.Gen.VmfKeys_gen', 'SV.Gen.VmfDispSizes_gen', 'SV.Gen.VmfOrder_gen',
+           'SV.Gen.VmfProg_gen', 'SV.Fmt.VmfFields', 'SV.Gen.VmfFieldsCfg_gen', 'SV.Props.C06']
 PRE = '''Import ListNotations. Open Scope string_scope.
 Fixpoint nl_eqb (a b : list N) : bool := match a, b with [], [] => true | x :: a', y :: b' => N.eqb x y && nl_eqb a' b' | _, _ => false end.
 Fixpoint bad_idx {A} (f : A -> bool) (n : N) (l : list A) : list N := match l with [] => [] | x :: r => (if f x then [] else [n]) ++ bad_idx f (n + 1)%N r end.
@@ -146,6 +159,105 @@ def corr_rounding(ck: Ck) -> None:
     if bg:
         ck.tie_broken.append('correspondence g6')
         ck.extra['g6_disagreement'] = casesg[bg[0]]
+
+
+def corr_output_fixup(ck: Ck) -> None:
+    """out_parse of Fmt/VmfFields.v against Output.parse on generated values (both separators, missing and extra
+    separators, ESC inside comma forms), out_join against the value written by Output.as_keyvalue, and fix_init against
+    EntityFixup.__init__ on generated index lists (duplicates, zero and negative indexes, repeated variable names)."""
+    from srctools.keyvalues import Keyvalues
+    from srctools.vmf import Output, EntityFixup, FixupValue
+    n = ck.budget(300, 1500)
+    alpha = ['a', 'b', ',', ',', '\x1b', ';', ' ', '"', 'x']
+    delays = {'0': 0.0, '1.5': 1.5, '2': 2.0}
+    times = {'-1': -1, '1': 1, '5': 5}
+    p_cases, j_cases = [], []
+    for _ in range(n):
+        nf = ck.rng.choice([3, 4, 5, 5, 5, 5, 6, 7])
+        sep = ck.rng.choice([',', '\x1b'])
+        flds = [''.join(ck.rng.choice(alpha) for _ in range(ck.rng.choice([0, 1, 1, 2, 3]))) for _ in range(max(nf - 2, 0))]
+        flds += [ck.rng.choice(list(delays)), ck.rng.choice(list(times))]
+        v = sep.join(flds[:nf]) if nf >= 2 else sep.join(flds)
+        try:
+            o = Output.parse(Keyvalues('OnX', v))
+            exp = [o.target, o.input if o.inst_in is None else None, o.params, o.delay, o.times, o.comma_sep]
+        except ValueError as e:
+            if 'Bad output value' not in str(e):
+                ck.count('output_parse_cases_numeric_junk')
+                continue
+            exp = None
+        ck.hist('output_value_fields', f'{len(v.split(sep))}{"c" if sep == "," else "e"}')
+        if exp is not None and (exp[1] is None or exp[3] not in delays.values() or exp[4] not in times.values()):
+            continue
+        p_cases.append((v, exp))
+        ck.count('output_parse_cases')
+        ck.seen(('outparse', v))
+        # writer side: a real Output, its line parsed back by the real Keyvalues parser gives the value text
+        comma = ck.rng.random() < 0.5
+        t, i, p = (''.join(ck.rng.choice(alpha) for _ in range(ck.rng.choice([0, 1, 2, 3]))) for _ in range(3))
+        d, tm = ck.rng.choice(list(delays)), ck.rng.choice(list(times))
+        ro = Output('OnX', t, i or 'i', p, delays[d], times=times[tm], comma_sep=comma)
+        val = next(iter(Keyvalues.parse(ro.as_keyvalue()))).value
+        j_cases.append(((t, i or 'i', p, d, tm, comma), val))
+        ck.count('output_join_cases')
+    inv_d = {v: k for k, v in delays.items()}
+    inv_t = {v: k for k, v in times.items()}
+
+    def b(x: bool) -> str:
+        return 'true' if x else 'false'
+    lit_p = coq_list(f'({coq_str(v)}, ' + ('None' if e is None else
+                     f'Some (mk_outv {coq_str(e[0])} {coq_str(e[1])} {coq_str(e[2])} {coq_str(inv_d[e[3]])} {coq_str(inv_t[e[4]])} {b(e[5])})') + ')'
+                     for v, e in p_cases[:500])
+    lit_j = coq_list(f'(mk_outv {coq_str(t)} {coq_str(i)} {coq_str(p)} {coq_str(d)} {coq_str(tm)} {b(c)}, {coq_str(val)})'
+                     for (t, i, p, d, tm, c), val in j_cases[:500])
+    # fixups
+    f_cases = []
+    names = ['a', 'B', 'b', 'A', 'cc', '$a', 'd']
+    for _ in range(n):
+        fl = [(ck.rng.choice(names), ck.rng.choice(['v', 'w', '']), ck.rng.choice([0, -1, 1, 1, 2, 3, 3, 5, 7])) for _ in range(ck.rng.randint(0, 6))]
+        try:
+            ef = EntityFixup([FixupValue(v, x, i) for v, x, i in fl])
+        except Exception as e:        # noqa: BLE001 - the API may refuse (empty names): not a case
+            ck.count('fixup_cases_refused')
+            continue
+        got = [(f.var, f.value, f.id) for f in ef._fixup.values()]
+        if any(i < 0 for _, _, i in fl):
+            fl = [(v, x, max(i, 0)) for v, x, i in fl]     # the model's indexes are naturals; negative == 0 == "not positive"
+        f_cases.append((fl, got))
+        ck.count('fixup_init_cases')
+        if len({i for _, _, i in fl}) < len(fl):
+            ck.seen(('fixinit', tuple(fl)))
+        ck.hist('fixup_list_len', len(fl))
+
+    def fx(l: list) -> str:
+        return coq_list(f'(({coq_str(v)}, {coq_str(x)}), {i}%N)' for v, x, i in l)
+    lit_f = coq_list(f'({fx(a)}, {fx(g)})' for a, g in f_cases[:500])
+    pre = PRE + '''Open Scope N_scope.
+Definition lower (c : N) : N := if ((65 <=? c) && (c <=? 90))%bool then c + 32 else c.
+Definition same_ci (a b : list N) : bool := nl_eqb (map lower a) (map lower b).
+Definition outv_eqb (a b : outv) : bool := (nl_eqb (ov_target a) (ov_target b) && nl_eqb (ov_input a) (ov_input b) && nl_eqb (ov_params a) (ov_params b)
+  && nl_eqb (ov_delay a) (ov_delay b) && nl_eqb (ov_times a) (ov_times b) && Bool.eqb (ov_comma a) (ov_comma b))%bool.
+Fixpoint fxl_eqb (a b : list fixup) : bool := match a, b with [], [] => true
+  | x :: a', y :: b' => (nl_eqb (fx_var x) (fx_var y) && nl_eqb (fx_val x) (fx_val y) && (fx_id x =? fx_id y) && fxl_eqb a' b')%bool | _, _ => false end.
+'''
+    vals = ck.coq_eval(IMPORTS, [
+        f'bad_idx (fun c : list N * option outv => match out_parse (fst c), snd c with Some a, Some e => outv_eqb a e | None, None => true '
+        f'| _, _ => false end) 0%N {lit_p}',
+        f'bad_idx (fun c : outv * list N => nl_eqb (out_join (fst c)) (snd c)) 0%N {lit_j}',
+        f'bad_idx (fun c : list fixup * list fixup => fxl_eqb (fix_init same_ci (fst c)) (snd c)) 0%N {lit_f}'], name='outfix', preamble=pre)
+    if vals is None:
+        ck.obligation('correspondence:output_fixup', False, 'model could not be evaluated')
+        ck.tie_broken.append('correspondence output/fixup: model evaluation failed')
+        return
+    bp, bj, bf = (parse_coq_N_list(v) for v in vals)
+    ck.obligation('correspondence:output_parse', not bp, f'{min(len(p_cases), 500)} output values, Fmt/VmfFields.out_parse vs Output.parse: {len(bp)} disagreements')
+    ck.obligation('correspondence:output_join', not bj, f'{min(len(j_cases), 500)} outputs, Fmt/VmfFields.out_join vs the value written by Output.as_keyvalue: {len(bj)} disagreements')
+    ck.obligation('correspondence:fixup_init', not bf, f'{min(len(f_cases), 500)} fixup lists, Fmt/VmfFields.fix_init vs EntityFixup.__init__: {len(bf)} disagreements')
+    for name, bad, cases in (('output_parse', bp, p_cases), ('output_join', bj, j_cases), ('fixup_init', bf, f_cases)):
+        if bad:
+            ck.tie_broken.append(f'correspondence {name} (Fmt/VmfFields.v vs vmf.py)')
+            ck.extra[f'{name}_disagreement'] = repr(cases[bad[0]])
+    ck.sample({'output_parse_case(value, Output.parse)': repr(p_cases[3]), 'fixup_init_case(input, EntityFixup order)': repr(f_cases[3])})
 
 
 def rich_spec(seed: int = 7) -> dict:
@@ -373,9 +485,13 @@ def feature_hist(ck: Ck, spec: dict) -> bool:
 
 
 def search(ck: Ck) -> None:
-    # quick: 450 maps; quick with a broken tie: 3000 (about 90 s); thorough: 9000
-    n = 9000 if ck.thorough else ck.budget(450, 3000)
+    # quick: 450 maps; quick with a broken tie: 3000 (about 90 s); thorough: 7500
+    n = 7500 if ck.thorough else ck.budget(450, 3000)
     found: dict[str, tuple[dict, str, dict]] = {}
+    # Shrinking budget, counted in oracle evaluations (not wall time, so that results are reproducible): per violation key
+    # and in total.  A fault in a hot path produces dozens of keys on big maps; the total keeps a failing run within minutes.
+    per_key = 200 if ck.thorough else 60
+    total = [2500 if ck.thorough else 420]
 
     def consider(spec: dict, label: str) -> None:
         res = U.check_spec(spec)
@@ -385,10 +501,16 @@ def search(ck: Ck) -> None:
                 ck.notes.append(f'generator produced a map the API refused ({label}): {what[:200]}')
                 continue
             if key not in found:
+                calls = [0]
+
                 def same(s: dict, key: str = key) -> bool:
+                    calls[0] += 1
                     return any(k == key for k, _, _ in U.check_spec(s))
-                small = U.shrink_spec(spec, same, ck.budget(120, 400))
-                w2 = next((w for k, w, _ in U.check_spec(small) if k == key), what)
+                budget = min(per_key, total[0])
+                small = U.shrink_spec(spec, same, budget) if budget > 0 else spec
+                total[0] -= calls[0]
+                ck.count('shrink_evaluations', calls[0])
+                w2 = next((w for k, w, _ in U.check_spec(small) if k == key), what) if budget > 0 else what
                 found[key] = (small, w2, det)
             else:
                 ck.count('repeat_violations')
@@ -437,17 +559,26 @@ def run(ck: Ck) -> None:
                'minimal/disp_multiblend/preserve_ids) and realised through the public API; a map is non-trivial when it has at least '
                'one entity, brush, visgroup, camera or cordon; distinct by full specification. Correspondence cases: strings over an '
                'alphabet rich in escapes (non-trivial = contains quote/backslash/newline), doubles with decimal-boundary values '
-               '(non-trivial = non-integral). Shipped files: every tests/**/*.vmf x preserve_ids x minimal.')
+               '(non-trivial = non-integral); output values of 3..7 fields over an alphabet holding both separators (all distinct values count); '
+               'fixup lists with duplicate/zero/negative indexes and equal names (non-trivial = some index repeated). '
+               'Shipped files: every tests/**/*.vmf x preserve_ids x minimal.')
     ck.trusted.append('hand tables in translate/c06_vmf.py (field types, call graph of export methods, parse roots, vertex arity), '
                       'validated on real objects / really exported text on every run')
     ck.trusted.append('hand-copied ESCAPES table and scanner in rocq/Fmt/VmfText.v (tied by differential correspondence on every run)')
+    ck.trusted.append('translate/c06_prog.py: extraction of the block structure of the export methods (shares the call table and the '
+                      'template classification with c06_vmf.py); hand models of Output.parse / EntityFixup.__init__ in rocq/Fmt/VmfFields.v '
+                      '(tied by differential correspondence and by the generated separators / field order)')
+    ck.trusted.append('the C01 KeyValues1 tokenizer/parser model rocq/KV/* (imported read-only; tied to keyvalues.py/tokenizer.py by check C01)')
     ck.assumptions += [
         'CPython float formatting (%.6f, %g, repr) is correctly rounded and its output contains only digits, sign, point, exponent, '
         'space and inf/nan (hypothesis num_fields_plain of the theorems; exercised by the search)',
         'float(text) returns the double nearest to the decimal text (re-reading adds at most half an ulp to the bounds of family 4)',
-        'the composition of the five obligation families into the whole-map statement is informal; glue is covered by the search only',
+        'text -> tree is proved for every export program; the tree -> object half for whole objects is informal (per block / per field '
+        'families) and covered by the search',
+        'str.split, str.join, int() on digit strings and str.casefold behave as modelled (split_on, join, parse_digits; casefold enters '
+        'the theorems as the section variables is_inst / same_var)',
     ]
-    oks = [ck.translate(name, fn) for name, fn in T.GEN.items()]
+    oks = [ck.translate(name, fn) for name, fn in {**T.GEN, **P.GEN}.items()]
     tr = ck.extra.get('translated', {})
     built = all(oks) and ck.build(['Props/C06.vo'])
     if built:
@@ -466,11 +597,34 @@ def run(ck: Ck) -> None:
         obs['fixup_index_written_2_read_2'] = '(Nat.eqb gen_fixup_width_written 2 && Nat.eqb gen_fixup_chars_read 2)%bool'
         obs['every_writer_method_has_sites'] = ('forallb (fun fn => orb (negb (Nat.eqb (List.length (sites_of fn kv_sites)) 0)) '
                                                 '(str_eqb fn "Output.export")) writer_methods')
+        # block-level write programs (round 2): one obligation per (specialised) export method
+        prog = tr.get('VmfProg_gen', {})
+        for fid, label in sorted(prog.get('functions', {}).items()):
+            obs[f'program_ok:{label}'] = f'prog_ok vmf_nums (fun_lookup vmf_progs {fid}%N)'
+        obs['programs_all_ok'] = 'table_ok vmf_nums vmf_progs'
+        obs['program_calls_defined'] = 'calls_defined vmf_progs'
+        obs['program_methods_complete'] = f'({len(T.EXPORT_FUNCS) - 1} <=? List.length vmf_progs)%nat'
+        # field-level glue (round 2)
+        for pw in (1, 2, 3, 4):
+            obs[f'disp_row_keys_read:power{pw}'] = (f'(forallb (fun p => rows_recognised gen_rowreader p (Z.to_nat (gen_disp_size {pw}))) '
+                                                    f'gen_row_prefixes && negb (Nat.eqb (List.length gen_row_prefixes) 0))%bool')
+        obs['output_separators_agree'] = '((gen_out_esc =? ESC) && (gen_out_write_comma =? COMMA) && (gen_out_read_comma =? COMMA))%N%bool'
+        obs['output_field_count_and_recombination'] = '(Nat.eqb gen_out_exact_fields 5 && Nat.eqb gen_out_recombine_from 6)%bool'
+        obs['output_field_order_agrees'] = ('(nlist_eqb gen_out_write_order (0 :: 1 :: 2 :: 3 :: 4 :: nil)%N && nlist_eqb gen_out_read_order (0 :: 1 :: 2 :: 3 :: 4 :: nil)%N)%bool')
         res = ck.instance_obligations(IMPORTS, obs, name='c06')
         if not all(res.values()):
             ck.tie_broken.append('instance obligations failed: ' + ', '.join(k for k, v in res.items() if not v))
+        # the two extractors (template census of round 1, structured programs of round 2) must see the same written lines
+        s1 = {(i['fn'], i['key'], i['val']) for i in tr.get('VmfTemplates_gen', {}).get('sites', [])}
+        s2 = {tuple(x) for x in prog.get('sites', [])}
+        ck.obligation('tie:program_sites_match_template_sites', s1 == s2,
+                      f'{len(s1)} template sites, {len(s2)} program lines (method, key template, value template); only in one: '
+                      f'{sorted(s1 ^ s2)[:4]}')
+        if s1 != s2:
+            ck.tie_broken.append('program translator and template translator disagree on the written lines')
         corr_escape(ck)
         corr_rounding(ck)
+        corr_output_fixup(ck)
         try:
             validate_tables(ck, tr.get('VmfTemplates_gen', {}), tr.get('VmfKeys_gen', {}))
         except Exception as e:     # the rich map itself may fail to export when the source is broken: the search reports that
@@ -483,12 +637,24 @@ def run(ck: Ck) -> None:
                  'replaceN', 'logicalpos', 'TokenSyntaxError')
     if any(any(m in k for m in str_marks) for k in keys):
         ck.explain('instance:strings_escaped:')
+        ck.explain('instance:program_ok:')
+        ck.explain('instance:programs_all_ok')
     if any(k.startswith(('field:', 'text:', 'parse-error:', 'file:')) for k in keys):
         ck.explain('instance:keys_read:')
         ck.explain('tie:')
     if any('isplacement' in k or 'disp' in k for k in keys):
         ck.explain('instance:disp_shape')
         ck.explain('instance:disp_arrays_complete')
+        ck.explain('instance:disp_row_keys_read')
+        ck.explain('translate:VmfFieldsCfg_gen')
+    if any(k.startswith(('parse-error:ValueError', 'file:parse-error:ValueError')) for k in keys):
+        ck.explain('instance:disp_row_keys_read')      # an unreadable row index surfaces as ValueError from Side._iter_disp_row
+    if any('outputs' in k or 'connections' in k or 'Bad output value' in k for k in keys):
+        ck.explain('translate:VmfFieldsCfg_gen')
+        ck.explain('instance:output_')
+        ck.explain('correspondence:output_')
+    if any('fixups' in k or 'replaceN' in k for k in keys):
+        ck.explain('correspondence:fixup_init')
     if any(k.startswith('order:entities') or k.startswith('text::') for k in keys):
         ck.explain('instance:entity_blocks_read_in_file_order')
     if any('fixups' in k or 'replaceN' in k for k in keys):
